@@ -66,7 +66,7 @@ impl Property for C19 {
         vec!["'valid' is decided by provenance and the harness's knowledge of key, protocol id, host list and expiry".into()]
     }
     fn pbt(&self, tier: Tier) -> PbtCfg {
-        PbtCfg { cases: tier.pick(400_000, 15_000_000), max_len: tier.pick(500, 1500), shrink_ms: 120_000 }
+        PbtCfg { cases: tier.pick(400_000, 8_000_000), max_len: tier.pick(500, 1500), shrink_ms: 120_000 }
     }
     fn required_labels(&self) -> Vec<&'static str> {
         vec!["valid_request", "padded_request", "valid_response", "invalid_token_request", "server_full", "denied_reply", "challenge_reply", "connected_reply", "expired_request", "request_other_address", "bound_token_other_address"]
